@@ -56,6 +56,47 @@ PROPS = {
                       "and makes this check UNDECIDED (exit 2), not a C07 alarm.",
         "technique": "Verus contracts + loop invariants on extracted real functions; inductive lemmas over sequence specs",
     },
+    "C09": {
+        "units": ["compact"],
+        "rlimit": 30,
+        "level": "proof",
+        "assumptions": STD_ASSUME + [
+            "`result.extend(children)` replaced by the verified helper vec_extend (Vec::append); Vec::with_capacity / push under vstd's std contracts",
+            "scope precondition uncompact_scope: per-input fan-out <= 4^8 (the property's bound) and list length <= 2^40; "
+            "allocation failure is not modelled",
+        ],
+        "search_ops": ["uncompact", "uncompact_total"],
+        "level_text": "Unbounded proof (Verus/Z3) that the real uncompact (both loops closed by invariants) returns Err for every "
+                      "target outside -1..29 and whenever some input is finer than the target, and otherwise exactly "
+                      "flat(inputs) = the concatenation, in input order, of each input's children sequence (or the input itself "
+                      "at equal resolution); lemmas: per input the outputs are pairwise distinct, are exactly the valid cells of "
+                      "the target resolution whose ancestor is the input, and the total length is the sum of the fan-outs.",
+        "level_note": "Callee contracts (get_resolution, get_num_children, cell_to_children) are verified in the same unit. "
+                      "The pre-count n is only a capacity hint; it is shown not to overflow inside the scope.",
+        "technique": "Verus contract + loop invariants on the extracted real uncompact; lemmas over the C07 children spec",
+    },
+    "C14": {
+        "units": ["compact"],
+        "rlimit": 30,
+        "level": "proof",
+        "assumptions": STD_ASSUME + [
+            "float layer (projections, tiling, pentagon geometry) assumed total; only the integer arguments handed to it are obligations",
+            "allocation failure not modelled; calls whose honest fan-out exceeds 4^8 are out of scope (uncompact_scope)",
+            "internal functions (serialize, is_first_child, get_stride, get_num_children) carry preconditions derived from "
+            "their call sites; each is an obligation at every call site in the units",
+        ],
+        "search_ops": ["cell_to_parent", "cell_to_children", "uncompact_total", "compact_total", "get_num_cells",
+                       "lonlat_to_cell", "cell_to_lonlat", "cell_to_boundary"],
+        "level_text": "Every public integer-layer function (get_resolution, cell_to_parent, cell_to_children, get_res0_cells, "
+                      "get_num_cells, uncompact) is verified by Verus with NO precondition on its u64 / i32 / Option<i32> "
+                      "arguments: Verus' built-in obligations (no arithmetic overflow, shift amount < 64, index in bounds, "
+                      "unwrap/panic unreachable, decreases on every loop) are exactly 'never panics, overflows or fails to "
+                      "terminate' in both build profiles, and the functional postconditions give 'Err, or a canonical ID of the "
+                      "requested resolution'.",
+        "level_note": "Eight genuine defects found this way were repaired by fix: commits (known_findings.json 'fixed'). "
+                      "The float layer is assumed total.",
+        "technique": "Verus default safety obligations + rejects/value postconditions on extracted real functions, no preconditions on public API",
+    },
     "C20": {
         "units": ["tree"],
         "rlimit": 30,
@@ -85,7 +126,7 @@ SEARCH_OPS = {
     "get_num_cells": ["get_num_cells", "cell_area"],
     "get_num_children": ["get_num_children"],
     "uncompact": ["uncompact", "uncompact_total"],
-    "compact": ["compact", "compact_total"],
+    "compact": ["compact_cover", "compact_max", "compact_total"],
     "k1_origins": ["roundtrip", "deserialize"],
 }
 
@@ -94,6 +135,8 @@ TRUSTED = {
     "codec": ["external_body err_msg", "external_body get_origins"],
     "tree": ["external_body err_msg", "external_body get_origins", "assume_specification usize::pow",
              "assume_specification u64::pow", "assume_specification u64::saturating_pow"],
+    "compact": ["external_body err_msg", "external_body get_origins", "assume_specification usize::pow",
+                "assume_specification u64::pow", "assume_specification u64::saturating_pow"],
 }
 
 NOT_APPLICABLE = {
@@ -105,6 +148,6 @@ NOT_APPLICABLE = {
     "C16": "local area preservation needs real analysis of the IVEA formulas over f64 code; out of reach",
     "C19": "authalic series inverse/monotone/odd to 1e-12: Clenshaw sums of sin/cos over f64; out of reach",
     "C04": "not built yet (tier B)", "C06": "not built yet (tier B)", "C07": "not built yet", "C08": "not built yet",
-    "C09": "not built yet", "C10": "not built yet", "C11": "not built yet (tier C)", "C13": "not built yet (tier B)",
-    "C14": "not built yet", "C17": "not built yet (tier B)", "C18": "not built yet (tier B)", 
+"C10": "not built yet", "C11": "not built yet (tier C)", "C13": "not built yet (tier B)",
+"C17": "not built yet (tier B)", "C18": "not built yet (tier B)", 
 }
